@@ -836,6 +836,9 @@ impl StateMachine for RocksDBStateMachine {
                         let lease =
                             self.lease.as_ref().expect("lease always initialized by NodeBuilder");
                         lease.register(key.clone(), *ttl);
+                    } else if let Some(ref lease) = self.lease {
+                        // A write without TTL cancels the TTL of the value it replaces.
+                        lease.unregister(key);
                     }
 
                     results.push(ApplyResult::success(entry.index));
@@ -867,6 +870,10 @@ impl StateMachine for RocksDBStateMachine {
 
                     if cas_success {
                         batch.put_cf(&cf, key, new_value);
+                        if let Some(ref lease) = self.lease {
+                            // The swapped-in value carries no TTL: cancel the old value's.
+                            lease.unregister(key);
+                        }
                     }
 
                     results.push(if cas_success {
